@@ -11,6 +11,7 @@ def dispatch (op : String) : Option (List String → String → Res) :=
   | "rank64" => some hRank64 | "rank128" => some hRank128
   | "idxsel32" => some hIdxSel32 | "idxsel32r64" => some hIdxSel32R64
   | "sel32" => some hSel32 | "sel32r64" => some hSel32R64
+  | "sel32m" => some (hSelMany false) | "sel32r64m" => some (hSelMany true)
   | "of" => some hOf | "toarray" => some hToArray | "get" => some hGet | "get1" => some hGet1
   | "safeget" => some hSafeGet | "safeget1" => some hSafeGet1 | "ofmany" => some hOfMany
   | "builder" => some hBuilder
